@@ -4,10 +4,12 @@ def groups(tier):
     K = dict(unit='fetch_slots', harness='C24/inflight.c', unwind=3, kind='skeleton', checks=[], skeleton=True, timeout=600, backend=['sat', 'cadical'],
              replay='reannounce', bound='control-flow skeleton (E3) with the in_flight facet; loops unrolled twice')
     return [Group('schedule.inflight', entry='h_schedule', clause='schedule_assigned_fetch clears in_flight only after releasing the peer slot', **K),
-            Group('dispatch.inflight', entry='h_dispatch', clause='dispatch_pending_fetch sets in_flight exactly when it took a peer slot', **K),
-            # (a contract for schedule_next_fetch_attempt's back-off arithmetic exists in contracts/backoff.spec; the product of two symbolic
-            #  64-bit values is not decided by cvc5 / z3 / SAT within 4 minutes, so it is not part of the check)
-            Group('clear.inflight', entry='h_clear', clause='clear_pending_fetch forgets a fetch only after releasing the slot it holds', **K)]
+            Group('dispatch.inflight', entry='h_dispatch', clause='dispatch_pending_fetch sets in_flight exactly when it took a peer slot; the retry delay is computed after the attempt was counted', **dict(K, replay='backoff')),
+            Group('clear.inflight', entry='h_clear', clause='clear_pending_fetch forgets a fetch only after releasing the slot it holds', **K)] + \
+           [Group(f'backoff.attempts={a}', 'backoff', 'C24/backoff_h.c', entry='h_backoff',
+                  defines=[f'ATT={a}'], unwind=4, kind='unbounded', backend=['cvc5', 'z3', 'sat', 'cadical'], timeout=300, replay='backoff',
+                  clause=f'schedule_next_fetch_attempt with attempts = {a}: delay = initial back-off (at least 1 s) * 2^min(attempts-1, 8), capped at the maximum; '
+                         'attempt limit exhausted => never retried; success => the success interval') for a in range(0, 11)]
 
 
 def replay(group, trace):
@@ -17,6 +19,6 @@ def replay(group, trace):
     sys.path.insert(0, os.path.join(root, 'replay'))
     import replaylib as R
     exe = R.build_full('C24.cpp', with_daemon=False, exclude=['src/core/Node.cpp'])
-    rc, out = R.run(exe, [], timeout=60)
+    rc, out = R.run(exe, ['backoff'] if group.replay == 'backoff' else [], timeout=60)
     last = [l for l in out.strip().splitlines() if l.strip()][-1:] or ['']
     return rc == 1, last[0][:400]
